@@ -15,12 +15,51 @@ def run(ctx):
     for lem in [l for l in LEMMAS if "C12" in l.serves]:
         ctx.lemma(e, lem)
     ctx.bounded.append(token_enumeration(6 if ctx.tier == "thorough" else 5))
+    ctx.bounded.append(ignore_blocks_in_files(ctx.tier))
     ctx.trust("z3/cvc5 theory of strings (str.indexof, str.substr, str.contains)")
     ctx.assume("characters above U+2FFFF are not represented by the solvers' string theory")
     ctx.assume("extract_reuse_info applies filter_ignore_block before every tag search: decided for the real body by the "
                "C02 contract of extract_reuse_info (result is a function of F(text)); here additionally exercised by the bounded enumeration")
     ctx.weakest_pre.append("tags on a line that also holds a marker are glued to the remainder of the line (seam); the lemma "
                            "about kept tags is stated for marker-free lines")
+
+
+def ignore_blocks_in_files(tier):
+    """ignore blocks in real files read through reuse_info_of_file: long blocks (crossing 4 KiB .. 64 KiB offsets), with and
+    without a snippet marker (which makes the reader scan the whole file)"""
+    import os, shutil, tempfile
+    from pyvc.driver import VERIF
+    from reuse.extract import reuse_info_of_file, REUSE_IGNORE_START as S, REUSE_IGNORE_END as E
+    os.makedirs(os.path.join(VERIF, ".scratch"), exist_ok=True)
+    d = tempfile.mkdtemp(dir=os.path.join(VERIF, ".scratch"))
+    failures, cases = [], 0
+    try:
+        for start in (0, 100, 4000, 4090, 8100):
+            for length in (200, 3990, 4096, 4200, 9000, 70000) if tier == "thorough" else (200, 4200, 9000):
+                for snippet in (False, True):
+                    cases += 1
+                    filler = "# filler line\n"
+                    head = "# SPDX-FileCopyrightText: Visible\n" + filler * (start // len(filler))
+                    hidden = "# SPDX-License-Identifier: 0BSD\n# SPDX-FileCopyrightText: Hidden\n"
+                    block = f"# {S}\n" + filler * (length // len(filler)) + hidden + f"# {E}\n"
+                    tail = "# SPDX-License-Identifier: MIT\n" + ("# SPDX-SnippetBegin\n# SPDX-SnippetEnd\n" if snippet else "")
+                    text = head + block + tail
+                    p = os.path.join(d, "f.py")
+                    with open(p, "w") as fp:
+                        fp.write(text)
+                    info = reuse_info_of_file(p, p, d)
+                    lic = {str(x) for x in info.spdx_expressions}
+                    cop = set(info.copyright_lines)
+                    if "0BSD" in lic or any("Hidden" in c for c in cop):
+                        failures.append({"block_starts_at": len(head), "block_length": len(block), "snippet_marker": snippet, "replayed": True,
+                                         "problem": f"tags inside the ignore block were read: licences {sorted(lic)}, notices {sorted(cop)}"})
+                    elif snippet and lic != {"MIT"}:
+                        failures.append({"block_starts_at": len(head), "block_length": len(block), "snippet_marker": snippet, "replayed": True,
+                                         "problem": f"tag after the block not read in a file that is scanned completely: {sorted(lic)}"})
+    finally:
+        shutil.rmtree(d, ignore_errors=True)
+    return Bounded("ignore-blocks-in-files", "ignore blocks starting at 5 offsets x 3 (quick) / 6 (thorough) lengths up to 70 000 bytes, with and without a "
+                   "snippet marker, through the real reuse_info_of_file", cases, failures[:8], "real files")
 
 
 def token_enumeration(maxlen):
